@@ -280,9 +280,13 @@ func ipEffect(t *rapid.T, targets []ipTarget) expr.Effect {
 			v = cond(mk(targets[i]), v)
 		}
 	}
-	// the instruction pointer is written 8 bytes wide, sometimes 4 (all generated
-	// addresses are below 2^32)
-	if uniformInt(t, 5, "ipw4") == 0 {
+	// the instruction pointer is written 8 bytes wide, sometimes 4 (only when all
+	// targets are below 2^32)
+	far := false
+	for _, p := range targets {
+		far = far || (p.isConst && p.addr >= 1<<32)
+	}
+	if uniformInt(t, 5, "ipw4") == 0 && !far {
 		return expr.NewRegStore(v, expr.IPKey, 4)
 	}
 	return expr.NewRegStore(v, expr.IPKey, 8)
@@ -390,7 +394,18 @@ func drawProgramOpt(t *rapid.T, maxBlocks, maxIns int, wild bool) *sProgram {
 		}
 		return allStarts[rapid.IntRange(0, len(allStarts)-1).Draw(t, label+"Start")]
 	}
+	var cur *sIns
 	pick := func() uint64 {
+		if wild && rapid.IntRange(0, 11).Draw(t, "farTarget") == 0 {
+			// a target beyond 2^32 whose low 32 bits equal the address of the
+			// following instruction or of some instruction start: it is neither
+			// (an address truncated to 32 bits would take it for one)
+			low := cur.end()
+			if rapid.Bool().Draw(t, "farLowStart") {
+				low = allStarts[rapid.IntRange(0, len(allStarts)-1).Draw(t, "farIns")]
+			}
+			return low + uint64(rapid.IntRange(1, 3).Draw(t, "farK"))<<32
+		}
 		if wild && rapid.IntRange(0, 3).Draw(t, "wildTarget") == 0 {
 			return wildAddr("wt")
 		}
@@ -401,6 +416,7 @@ func drawProgramOpt(t *rapid.T, maxBlocks, maxIns int, wild bool) *sProgram {
 	}
 	for _, pe := range terms {
 		s := pe.s
+		cur = s
 		switch pe.kind {
 		case 1:
 			s.ip = []ipTarget{{true, pick()}}
